@@ -46,6 +46,8 @@ class C18(Prop):
         n = 30 if tier == "quick" else 300
         for _ in range(n):
             yield {"kind": "tree", "seed": r.getrandbits(40), "cli": r.random() < 0.3}
+        if shard < 3:
+            yield {"kind": "locale", "variant": shard}
 
     def setup_worker(self, col, tier):
         if shutil.which("git") is None:
@@ -58,7 +60,42 @@ class C18(Prop):
     def teardown_worker(self, col):
         shutil.rmtree(self.tmp, ignore_errors=True)
 
+    def _check_locale(self, case, col):
+        """The real command line in a process whose locale is not UTF-8: git reads .gitignore as bytes, whatever the locale."""
+        import subprocess
+        import sys
+        base = tempfile.mkdtemp(prefix="t-", dir=self.tmp)
+        root = os.path.join(base, "tree")
+        try:
+            for f in ["a.md", "b.md", "docs/a.md", "docs/b.md", "drafts/d.md", "keep/b.md"]:
+                os.makedirs(os.path.dirname(os.path.join(root, f)) or root, exist_ok=True)
+                with open(os.path.join(root, f), "w") as fh:
+                    fh.write("x\n")
+            lines = [["# caf\u00e9 \u2014 brouillons", "drafts/", "b.md", "!keep/b.md"], ["\ufeffdrafts/", "/b.md", "# \u4e2d\u6587"], ["docs/", "# plain ascii"]][case["variant"]]
+            with open(os.path.join(root, ".gitignore"), "w", encoding="utf-8") as fh:
+                fh.write("\n".join(lines) + "\n")
+            with open(os.path.join(root, "docs", ".gitignore"), "w", encoding="utf-8") as fh:
+                fh.write("# \u00fcber\nb.md\n")
+            want = sorted(os.path.join(os.path.realpath(root), p) for p in git_listing(root) if p.endswith(".md"))
+            shutil.rmtree(os.path.join(root, ".git"), ignore_errors=True)
+            for name, extra in (("utf8", {"LC_ALL": "C.UTF-8"}), ("C", {"LC_ALL": "C", "LANG": "C", "PYTHONUTF8": "0", "PYTHONCOERCECLOCALE": "0"})):
+                env = dict(os.environ, **extra)
+                env.pop("PYTHONIOENCODING", None)
+                p = subprocess.run([sys.executable, "-m", "flowmark.cli", "--list-files", "."], cwd=root, env=env, capture_output=True, timeout=120)
+                col.case()
+                col.mon("cli")
+                col.distinct("locale", case["variant"], name)
+                got = sorted(os.path.realpath(os.path.join(root, x)) for x in p.stdout.decode("utf-8", "replace").split("\n") if x)
+                if p.returncode != 0 or got != want:
+                    col.violation("cli", f"C18/cli-under-locale-{name}-disagrees-with-git", case,
+                                  {"rc": p.returncode, "gitignore": lines, "listed_but_git_ignores": [os.path.relpath(x, root) for x in sorted(set(got) - set(want))[:4]],
+                                   "git_keeps_but_missing": [os.path.relpath(x, root) for x in sorted(set(want) - set(got))[:4]], "stderr": p.stderr.decode("utf-8", "replace")[-200:]})
+        finally:
+            shutil.rmtree(base, ignore_errors=True)
+
     def check(self, case, col: Collector):
+        if case["kind"] == "locale":
+            return self._check_locale(case, col)
         import random
         r = random.Random(case["seed"])
         base = tempfile.mkdtemp(prefix="t-", dir=self.tmp)
@@ -136,6 +173,25 @@ class C18(Prop):
                 col.violation("git-diff", f"C18/disagrees-with-git/{'listed-but-ignored' if extra else 'missing-but-not-ignored'}/{cls}", case,
                               {"listed_but_git_ignores": [os.path.relpath(p, root) for p in extra[:4]],
                                "git_keeps_but_missing": [os.path.relpath(p, root) for p in missing[:4]], "gitignore": ign})
+            # two traversal roots in one call, one inside the other: each is listed by its own rules ("from the traversal
+            # root down"), so the result is the union of what git lists at either root
+            subs = [d for d in t["dirs"] if d]
+            if subs and (case["seed"] % 2 == 0 or ex):
+                sub = os.path.join(root, r.choice(subs))
+                want_sub = sorted(os.path.join(os.path.realpath(sub), p) for p in git_listing(sub) if p.endswith(".md") and os.path.basename(p) != ".gitignore")
+                shutil.rmtree(os.path.join(sub, ".git"), ignore_errors=True)
+                union = sorted(set(want) | set(want_sub))
+                for order_ in ([root, sub], [sub, root]):
+                    col.case()
+                    col.mon("git-diff")
+                    col.count("two_root_listings")
+                    got2 = fm.call(lambda: sorted(os.path.realpath(str(p)) for p in self.FR(self.FRC()).resolve(list(order_))))
+                    if isinstance(got2, fm.Raised):
+                        col.violation("git-diff", f"C18/raised/{got2.kind}", case, got2.text)
+                    elif got2 != union:
+                        col.violation("git-diff", "C18/two-roots/differs-from-union-of-git-listings/" + ("outer-first" if order_[0] == root else "inner-first"), case,
+                                      {"inner_root": os.path.relpath(sub, root), "extra": [os.path.relpath(p, root) for p in sorted(set(got2) - set(union))[:4]],
+                                       "missing": [os.path.relpath(p, root) for p in sorted(set(union) - set(got2))[:4]], "gitignore": ign})
             # respect_gitignore=False == no .gitignore files at all
             col.case()
             col.mon("no-respect")
